@@ -101,6 +101,17 @@ func (c *Chain) Oracle(s *Snap) {
 		}
 	}
 	cmpPools("C12:committee-tally-mismatch"+c.tallyWhy(), "supply.CommitteeStaked", s.CS, cs)
+	// the tally of a committee is the stake of its MEMBERS: a record listing a committee twice is one member
+	for _, v := range s.Vals {
+		seen := map[uint64]bool{}
+		for _, id := range v.Committees {
+			if seen[id] {
+				c.fail("C12:committee-tally-counts-a-validator-twice", fmt.Sprintf("height %d: validator %x lists committee %d twice; supply.CommitteeStaked[%d] counts its stake %d once per entry", s.Height, v.Addr, id, id, v.Stake))
+				break
+			}
+			seen[id] = true
+		}
+	}
 	cmpPools("C12:committee-delegated-tally-mismatch"+c.tallyWhy(), "supply.CommitteeDelegatedOnly", s.CD, cd)
 	// ---- C12: markers <-> validator status
 	vals := map[string]*SnapVal{}
@@ -110,6 +121,9 @@ func (c *Chain) Oracle(s *Snap) {
 	un, pa := map[string]bool{}, map[string]bool{}
 	for _, m := range s.Unstaking {
 		un[fmt.Sprintf("%d/%x", m.Height, m.Addr)] = true
+		if m.Height == 0 { // 0 is how a record says "not unstaking": such a marker is never due
+			c.fail("C12:unstaking-marker-at-height-zero", fmt.Sprintf("height %d: unstaking marker (0,%x)", s.Height, m.Addr))
+		}
 		v := vals[string(m.Addr)]
 		if v == nil {
 			c.fail("C12:unstaking-marker-without-validator", fmt.Sprintf("height %d: unstaking marker (%d,%x) but no such validator", s.Height, m.Height, m.Addr))
@@ -119,6 +133,9 @@ func (c *Chain) Oracle(s *Snap) {
 	}
 	for _, m := range s.Paused {
 		pa[fmt.Sprintf("%d/%x", m.Height, m.Addr)] = true
+		if m.Height == 0 {
+			c.fail("C12:paused-marker-at-height-zero", fmt.Sprintf("height %d: paused marker (0,%x)", s.Height, m.Addr))
+		}
 		v := vals[string(m.Addr)]
 		if v == nil {
 			c.fail("C12:paused-marker-without-validator", fmt.Sprintf("height %d: paused marker (%d,%x) but no such validator", s.Height, m.Height, m.Addr))
